@@ -109,6 +109,38 @@ theorem sortPairs_perm (ps : List BracketPair) : (sortPairs ps).Perm ps := by
       exact List.perm_middle
   simpa [sortPairs] using this ps []
 
+/-- insertion keeps the list sorted by `start` -/
+theorem insertPair_sorted (p : BracketPair) : ∀ qs : List BracketPair,
+    qs.Pairwise (fun a b => a.start ≤ b.start) → (insertPair p qs).Pairwise (fun a b => a.start ≤ b.start)
+  | [], _ => by simp [insertPair]
+  | q :: qs, h => by
+    have h' := List.pairwise_cons.1 h
+    simp only [insertPair]
+    split
+    · next hlt =>
+      refine List.pairwise_cons.2 ⟨?_, h⟩
+      intro x hx
+      rcases List.mem_cons.1 hx with rfl | hx
+      · exact Nat.le_of_lt hlt
+      · have := h'.1 x hx; omega
+    · next hge =>
+      refine List.pairwise_cons.2 ⟨?_, insertPair_sorted p qs h'.2⟩
+      intro x hx
+      rcases (mem_insertPair p x qs).1 hx with rfl | hx
+      · omega
+      · exact h'.1 x hx
+
+/-- the crate processes the pairs in the order of their opening brackets -/
+theorem sortPairs_sorted (ps : List BracketPair) :
+    (sortPairs ps).Pairwise (fun a b => a.start ≤ b.start) := by
+  have : ∀ (ps acc : List BracketPair), acc.Pairwise (fun a b => a.start ≤ b.start) →
+      (ps.foldl (fun acc p => insertPair p acc) acc).Pairwise (fun a b => a.start ≤ b.start) := by
+    intro ps
+    induction ps with
+    | nil => intro acc h; exact h
+    | cons p ps ih => intro acc h; exact ih _ (insertPair_sorted p acc h)
+  exact this ps [] List.Pairwise.nil
+
 /-- fold invariant: the positions on the stack and the ends of the pairs found so far are pairwise
     distinct, lie below the characters still to come, and satisfy `G` -/
 theorem bd16_fold_ends (ds : DataSource) (ocs pcs : Classes) (G : Nat → Prop) :
